@@ -2,7 +2,9 @@
 lean/GeomV/C08/Gen/GoProj.lean from the CURRENT proj/{common,datum,merc,lcc,aea,eqdc,tmerc,utm,krovak}.go and Gen/GoRoute.lean from
 proj/transform.go and Gen/GoAxis.lean from proj/adjust_axis.go; the `rfl` lemmas of lean/GeomV/C08/{Ties,TiesCommon,TiesReal,TiesGuards,TiesRoute,TiesAxis}.lean then re-check model = source
 for every arithmetic right-hand side, guard comparison (operands, operator, threshold), literal loop bound, integer iteration cap
-(tmerc max_iter, krovak iter < 15, Hannover maxiter) and the pipeline's route decision, record guards and compound assignments."""
+(tmerc max_iter, krovak iter < 15, Hannover maxiter) and the pipeline's route decision, record guards and compound assignments;
+Gen/GoShape.lean (extract/shape.go) holds the statement skeleton of every function of the anchored files (nesting of guards, order,
+else branches, loop headers, value vs error returns), pinned by the rfl lemmas of TiesShape.lean."""
 import os, subprocess, sys
 sys.path.insert(0, os.path.join(os.path.dirname(os.path.dirname(os.path.abspath(__file__))), "lib"))
 import vcheck
@@ -85,7 +87,7 @@ def post(check, pairs, stats):
 
 CFG = {
     "id": "C08",
-    "lean_modules": ["GeomV.C08.Proofs", "GeomV.C08.ProofsConic", "GeomV.C08.ProofsTmerc", "GeomV.C08.ProofsGeodetic", "GeomV.C08.ProofsKrovak", "GeomV.C08.ProofsUnique", "GeomV.C08.ProofsConverge", "GeomV.C08.ProofsHelmert", "GeomV.C08.ProofsPipeline", "GeomV.C08.ProofsMore", "GeomV.C08.ProofsAea", "GeomV.C08.ProofsAea2", "GeomV.C08.ProofsPipeline2", "GeomV.C08.ProofsBounds", "GeomV.C08.Ties", "GeomV.C08.TiesCommon", "GeomV.C08.TiesReal", "GeomV.C08.TiesGuards", "GeomV.C08.TiesRoute", "GeomV.C08.TiesAxis"],
+    "lean_modules": ["GeomV.C08.Proofs", "GeomV.C08.ProofsConic", "GeomV.C08.ProofsTmerc", "GeomV.C08.ProofsGeodetic", "GeomV.C08.ProofsKrovak", "GeomV.C08.ProofsUnique", "GeomV.C08.ProofsConverge", "GeomV.C08.ProofsHelmert", "GeomV.C08.ProofsPipeline", "GeomV.C08.ProofsMore", "GeomV.C08.ProofsAea", "GeomV.C08.ProofsAea2", "GeomV.C08.ProofsPipeline2", "GeomV.C08.ProofsBounds", "GeomV.C08.Ties", "GeomV.C08.TiesCommon", "GeomV.C08.TiesReal", "GeomV.C08.TiesGuards", "GeomV.C08.TiesGuards2", "GeomV.C08.TiesRoute", "GeomV.C08.TiesAxis", "GeomV.C08.TiesShape"],
     "pregen": pregen,
     "post": post,
     "exe": "geomv_c08",
@@ -150,10 +152,15 @@ CFG = {
                                   "guard_imlfnLoop", "guard_imlfn_cap", "guard_qsfnz", "guard_fwdMerc", "guard_fwdLcc", "guard_invLcc",
                                   "guard_aeaPhi1zLoop", "guard_aeaPhi1z", "guard_invAea", "guard_invEqdc", "guard_tmercPhiLoop",
                                   "guard_krovakLatLoop", "guard_geodeticToGeocentric", "guard_initAea", "guard_initLcc", "guard_initEqdc",
+                                  # part 4b (TiesGuards2, phase 4): every guard of tmerc.go's closures through regenerated operands
+                                  "guard_fwdTmerc", "guard_invTmerc", "guard_tmercPhiLoop_add",
                                   # part 5 (TiesRoute): transform.go - checkNotWGS, the closure's route condition, transform3's guards and assignments
                                   "tie_checkNotWGS", "tie_transform", "tie_transform3",
                                   # part 6 (TiesAxis): adjust_axis.go - switch table, loop bound, skip condition, slots, statement count
-                                  "tie_axisSign", "tie_axis_shape", "tie_adjustAxis"]],
+                                  "tie_axisSign", "tie_axis_shape", "tie_adjustAxis"]] + [
+        # part 7 (TiesShape): the NESTING - the statement skeleton of every function of the anchored files (which statements a guard
+        # governs, order, else branches, loop headers, value vs error returns) regenerated as one string per function and pinned by rfl
+        T + "Shape." + n for n in ["common_adjust_lat", "common_adjust_lon", "common_asinz", "common_e0fn", "common_e1fn", "common_e2fn", "common_e3fn", "common_imlfn", "common_mlfn", "common_msfnz", "common_phi2z", "common_qsfnz", "common_sign", "common_tsfnz", "datum_m_compare_datums", "datum_m_geocentric_from_wgs84", "datum_m_geocentric_to_geodetic_noniter", "datum_m_geocentric_to_geodetic", "datum_m_geocentric_to_wgs84", "datum_m_geodetic_to_geocentric", "datum_transform_checkDatumParams", "datum_transform_datumTransform", "transform_checkNotWGS", "transform_m_NewTransform", "transform_transform3", "adjust_axis_adjust_axis", "longlat_LongLat", "merc_Merc", "lcc_LCC", "aea_AEA", "aea_aeaPhi1z", "eqdc_EqdC", "tmerc_TMerc", "utm_UTM", "krovak_Krovak", "shape_functions"]],
     "trusted_base": [
         "Lean 4.33.0 kernel; axioms of every theorem printed by #print axioms must be within {propext, Classical.choice, Quot.sound}; Mathlib v4.33 modules imported by RealInst/Lemmas/Proofs are checked by the same kernel",
         "the generic model lean/GeomV/C08/{ProjCommon,ProjMerc,ProjLcc,ProjAea,ProjEqdc,ProjTmerc,ProjKrovak,ProjDatum,ProjPipeline}.lean is ONE definition per Go function; its Float instance is tied to /repo/proj by the correspondence run on every check (1e-9 relative on projected metres, 3e-12 rad on angles; for the conics widened ONLY by the derived conditioning slack 4u*kappa*(1+1/|ns|) of the cone constant - kappa the relative condition of its two differences, aea latitude x14/cos(lat) - and the Newton straddle term of aeaPhi1z, Main.lean `Slack`: both stay below the base tolerance unless the standard parallels are closer than ~1 degree), its Real instance is what the theorems are about",
